@@ -48,6 +48,9 @@ INITS = [
     asm.assemble([("PUSH", 9), ("PUSH", 3), "SSTORE", "INVALID"]).hex(),
     asm.creation_code(b"\x00").hex(),
 ]
+# constructor that fails iff it receives no value: REVERT if CALLVALUE == 0 else deploy _RT
+INIT_NEEDS_VALUE = asm.creation_code(_RT, asm.assemble(["CALLVALUE", ("PUSHL", "ok"), "JUMPI", ("PUSH", 0), ("PUSH", 0), "REVERT", ("LABEL", "ok")])).hex()
+INITS.append(INIT_NEEDS_VALUE)
 
 PROLOGUE = [
     ["mstore", CTX, ["env", "CALLER"]],
@@ -127,6 +130,11 @@ def frame_st(level):
         if probe == 0 and level < 3:
             # a value-bearing CALL as the very first effect (what a static frame must refuse)
             effs = [["call", "CALL", ["c", POOL[level + 1]], pv, CTX, 0xC0, RET, 0xC0, 0x100]] + effs
+        if probe == 1 and level == 0:
+            # a creation that fails, retried with the same salt and init code but enough value: the failed
+            # attempt must leave nothing behind at the address (the retry must not see a collision)
+            kind = "CREATE2" if pv != ["c", 0] else "CREATE"
+            effs = [["create", kind, ["c", 0], INIT_NEEDS_VALUE, ["c", 2], 0x160], ["create", kind, ["c", 1], INIT_NEEDS_VALUE, ["c", 2], 0x180]] + effs
         if calls_first:
             # reads and calls before any other write: lets a static frame reach its value-bearing CALL
             effs = [e for e in effs if e[0] == "call"] + [e for e in effs if e[0] != "call"]
